@@ -547,7 +547,7 @@ func ruleR13(p *Prog) []Ob {
 				}
 				n++
 				ordT[funcLabel(fn)]++
-				ob := Ob{Rule: "R13", Inst: fmt.Sprintf("temp-name:%s#%d", funcLabel(fn), ordT[funcLabel(fn)]), Props: props, Pos: p.at(at), Func: funcLabel(fn)}
+				ob := Ob{Rule: "R13", Inst: fmt.Sprintf("temp-name:%s#%d", funcLabel(fn), ordT[funcLabel(fn)]), Props: append(append([]string{}, props...), "C05"), Pos: p.at(at), Func: funcLabel(fn)}
 				switch {
 				case logSuffix == "":
 					ob.Status, ob.Msg = Undecided, "log suffix unknown"
